@@ -305,6 +305,10 @@ class DimSim(Engine):
         """returns (expected_model | 'RAISE' | None (=outside the specified domain), thunk)"""
         letters = [st.LET[i] for i in model]
         D = st.D
+        # "operations without inplace=True": half of the out-of-place calls do not mention the switch at all
+        kw = {} if (not inplace and (dim + key_idx + pos + len(dims)) % 2 == 0) else {"inplace": inplace}
+        if not kw:
+            st.probes["mutator_called_without_inplace_argument"] = st.probes.get("mutator_called_without_inplace_argument", 0) + 1
         dim = dim % len(D)
         dims = [i % len(D) for i in dims]
         if f in ("append", "prepend", "insert"):
@@ -319,13 +323,13 @@ class DimSim(Engine):
             clash = st.LET[dim] in letters
             if f == "append":
                 exp = model + [dim]
-                th = lambda: real.append(new, inplace=inplace)
+                th = lambda: real.append(new, **kw)
             elif f == "prepend":
                 exp = [dim] + model
-                th = lambda: real.prepend(new, inplace=inplace)
+                th = lambda: real.prepend(new, **kw)
             else:
                 exp = model[:p] + [dim] + model[p:]
-                th = lambda: real.insert(pyidx, new, inplace=inplace)
+                th = lambda: real.insert(pyidx, new, **kw)
             return ("RAISE" if clash else exp), th
         if f in ("expand_by", "extend"):
             seen, ds = set(), []
@@ -335,14 +339,14 @@ class DimSim(Engine):
                     ds.append(i)
             clash = any(st.LET[i] in letters for i in ds)
             added = [D[i] for i in ds]
-            th = (lambda: real.expand_by(added, inplace=inplace)) if f == "expand_by" else (lambda: real.extend(added, inplace=inplace))
+            th = (lambda: real.expand_by(added, **kw)) if f == "expand_by" else (lambda: real.extend(added, **kw))
             return ("RAISE" if clash else model + ds), th
         if f in ("drop", "remove"):
             if not model:
                 return None, None
             k = key_idx % len(model)
             key = self._key(st, model[k], keyform)
-            th = (lambda: real.drop(key, inplace=inplace)) if f == "drop" else (lambda: real.remove(key, inplace=inplace))
+            th = (lambda: real.drop(key, **kw)) if f == "drop" else (lambda: real.remove(key, **kw))
             return model[:k] + model[k + 1:], th
         if f == "replace":
             if not model:
@@ -353,7 +357,7 @@ class DimSim(Engine):
             if st.LET[dim] == letters[k]:
                 return None, None  # same letter as the replaced one: the property is silent
             clash = st.LET[dim] in letters
-            th = lambda: real.replace(key, new, inplace=inplace)
+            th = lambda: real.replace(key, new, **kw)
             return ("RAISE" if clash else model[:k] + [dim] + model[k + 1:]), th
         raise AssertionError(f)
 
